@@ -415,6 +415,9 @@ def run(repo, rep, tier):
     rep.rule("R-C19-11", "no tracking threshold is defaulted with `p or <non-zero constant>`: a tolerance of 0 (nothing may be continued) is a legitimate argument")
     from .round7 import falsy_zero_defaulting
     falsy_zero_defaulting(repo, rep, "R-C19-11", ("wavespectra.partition.tracking", "wavespectra.partition.partition"), floor=15)
+    rep.rule("R-C19-12", "the peak-frequency change compared with the asymmetric growth / swell window is current minus previous step")
+    from .round7 import difference_orientation
+    difference_orientation(repo, rep, "R-C19-12", "wavespectra.partition.tracking.match_consecutive_partitions", "fp", "the peak-frequency change")
     rep.rule("R-C19-10", "(shared) the tracking thresholds reach the kernel in the slots of the parameters they are named after; operands are aligned by label")
     from .shared import ufunc_forwarding
     rep.floor("R-C19-10", "apply_ufunc sites of the tracker", ufunc_forwarding(repo, rep, "R-C19-10", ("wavespectra.partition.tracking",)), 1)
